@@ -9,6 +9,11 @@ type locksetMon struct {
 	events []lsEvent
 	once   int // >0: inside sync.Once.Do
 	onceOf map[*Value]bool
+	call   int // current API call (verifrt.Call), 0 = outside
+	ncall  int
+	nacq   int
+	acq    map[*Value]int // lock cell -> id of the current acquisition
+	pending func()        // the second goroutine, not yet run
 }
 
 type lsEvent struct {
@@ -19,19 +24,25 @@ type lsEvent struct {
 	atomic bool
 	site   string
 	locks  map[*Value]int
+	acqs   map[*Value]int
 	once   bool
+	call   int
 }
 
 func (m *monitors) record(ex *Exec, o *Obj, cell *Value, write, atomic bool, site string) {
 	ls := m.lockset
-	if ls == nil || o == nil || !o.Shared {
+	if ls == nil || o == nil || !o.Shared || ex.inInit > 0 {
 		return
 	}
 	held := make(map[*Value]int, len(ls.held))
 	for k, v := range ls.held {
 		held[k] = v
 	}
-	ls.events = append(ls.events, lsEvent{thread: ls.thread, obj: o, cell: cell, write: write, atomic: atomic, site: site, locks: held, once: ls.once > 0})
+	acqs := make(map[*Value]int, len(ls.acq))
+	for k, v := range ls.acq {
+		acqs[k] = v
+	}
+	ls.events = append(ls.events, lsEvent{thread: ls.thread, obj: o, cell: cell, write: write, atomic: atomic, site: site, locks: held, acqs: acqs, once: ls.once > 0, call: ls.call})
 }
 
 func (m *monitors) access(ex *Exec, o *Obj, cell *Value, write bool, site string) {
@@ -46,8 +57,11 @@ func (m *monitors) lockOp(ex *Exec, p Ptr, mode int, acquire bool) {
 	ls := m.lockset
 	if acquire {
 		ls.held[p.C] = mode
+		ls.nacq++
+		ls.acq[p.C] = ls.nacq
 	} else {
 		delete(ls.held, p.C)
+		delete(ls.acq, p.C)
 	}
 }
 
@@ -101,4 +115,53 @@ func rw(w bool) string {
 		return "write"
 	}
 	return "read"
+}
+
+// nonAtomic: API calls whose accesses to one shared object are spread over several atomic operations or several
+// critical sections (check-then-act): such a call need not be equivalent to any sequential order.
+func (ls *locksetMon) nonAtomic() []string {
+	type key struct {
+		call int
+		obj  *Obj
+	}
+	units := map[key]map[string]bool{}
+	sites := map[key]string{}
+	for _, e := range ls.events {
+		if e.call == 0 || e.once {
+			continue
+		}
+		k := key{e.call, e.obj}
+		if units[k] == nil {
+			units[k] = map[string]bool{}
+		}
+		var u string
+		if e.atomic {
+			u = fmt.Sprintf("atomic@%p#%d", e.obj, len(units[k]))
+		} else if len(e.acqs) > 0 {
+			best := 0
+			for _, id := range e.acqs {
+				if id > best {
+					best = id
+				}
+			}
+			u = fmt.Sprintf("cs%d", best)
+		} else {
+			u = "unlocked" // plain unlocked accesses are the race check's business
+		}
+		units[k][u] = true
+		sites[k] = e.obj.Site + " at " + e.site
+	}
+	var out []string
+	for k, us := range units {
+		n := 0
+		for u := range us {
+			if u != "unlocked" {
+				n++
+			}
+		}
+		if n > 1 {
+			out = append(out, fmt.Sprintf("%d separate atomic steps on %s within one call", n, sites[k]))
+		}
+	}
+	return out
 }
